@@ -201,6 +201,30 @@ def doT (w : List String) : String :=
     | _, _ => "bad-op"
   | _ => "bad-op"
 
+/-- `r <cflags> <pattern-hex>`: parse, render the stored tree with the Lean renderers (bracket
+expressions from their bitmaps), parse again.  Output `ok wf=<b> same=<b> <rendered-hex>`:
+`same` = the re-rendered text compiles to the same tree under the same flags. -/
+def doR (w : List String) : String :=
+  match w with
+  | [cflagsS, patS] =>
+    match cflagsS.toNat?, parseHex patS with
+    | some cflags, some pat =>
+      if cflags > 15 || pat.contains 0 then "bad-op" else
+      let fl : PFlags := { icase := cflags.testBit 1, newline := cflags.testBit 3 }
+      let ere := cflags.testBit 0
+      match (if ere then parseERE fl pat else parseBRE fl pat) with
+      | .error .unsupported => "unsup"
+      | .error c => s!"err ## code={c.num}"
+      | .ok (r, nsub) =>
+        let wf := if ere then wfE r else wfB r
+        let txt := if ere then renderERE r else renderBRE r
+        let same := match (if ere then parseERE fl txt else parseBRE fl txt) with
+          | .ok (r', nsub') => r' == r && nsub' == nsub
+          | .error _ => false
+        s!"ok wf={wf} same={same} {toHex txt}"
+    | _, _ => "bad-op"
+  | _ => "bad-op"
+
 def step (_ : Unit) (line : String) : Unit × String :=
   let l := line.trimAscii.toString
   if l == "#case" then ((), "#case") else
@@ -210,6 +234,7 @@ def step (_ : Unit) (line : String) : Unit × String :=
   | "p" :: w => ((), doP w)
   | "k" :: w => ((), doK w)
   | "t" :: w => ((), doT w)
+  | "r" :: w => ((), doR w)
   | _ => ((), "bad-op")
 
 def main : IO Unit := runDriver () step
